@@ -81,8 +81,17 @@ func main() {
 	ok := expect("registered: <nil>", 2*time.Second)
 	fmt.Println("the process on node2 subscribes:")
 	node2.Send(spid, gen.Event{Name: "w25ev", Node: node1.Name()})
-	ok = expect("linked: <nil>", 3*time.Second) && ok
-	ok = expect("start", 2*time.Second) && ok
+	// the two arrive in either order
+	got := map[string]bool{}
+	for i := 0; i < 2; i++ {
+		select {
+		case n := <-notes:
+			fmt.Println("  <-", n)
+			got[n] = true
+		case <-time.After(3 * time.Second):
+		}
+	}
+	ok = ok && got["linked: <nil>"] && got["start"]
 	if !ok {
 		fmt.Println("unexpected sequence")
 		os.Exit(2)
